@@ -59,20 +59,71 @@ def _on_alarm(signum, frame):
 _SKIP_MODULES = ("threading", "multiprocessing", "_thread", "logging", "hsverif", "types", "functools")
 
 
+def _encode(v, root, depth=0):
+    """Values carried from one transition to the next may embed the producing worker's store directory (a memoised Path, a
+    string); they are re-based on the consuming worker's directory: paths under the root become root-relative tokens."""
+    if isinstance(v, os.PathLike):
+        s = os.fspath(v)
+        if isinstance(s, str) and root and (s == root or s.startswith(root + "/")):
+            return ("\0relpath", s[len(root):])
+        return ("\0path", s)
+    if isinstance(v, str) and root and (v == root or v.startswith(root + "/")):
+        return ("\0relstr", v[len(root):])
+    if depth < 6:
+        if isinstance(v, list):
+            return [_encode(x, root, depth + 1) for x in v]
+        if isinstance(v, tuple):
+            return ("\0tuple", [_encode(x, root, depth + 1) for x in v])
+        if isinstance(v, dict):
+            return {("\0key", _freeze(_encode(k, root, depth + 1))) if isinstance(k, (os.PathLike, tuple)) or (
+                isinstance(k, str) and root and k.startswith(root)) else k: _encode(x, root, depth + 1) for k, x in v.items()}
+    return v
+
+
+def _freeze(x):
+    return tuple(_freeze(y) for y in x) if isinstance(x, list) else x
+
+
+def decode(v, root, path_type):
+    if isinstance(v, tuple) and len(v) == 2 and isinstance(v[0], str) and v[0].startswith("\0"):
+        tag, val = v
+        if tag == "\0relpath":
+            return path_type(root + val)
+        if tag == "\0path":
+            return path_type(val)
+        if tag == "\0relstr":
+            return root + val
+        if tag == "\0tuple":
+            return tuple(decode(x, root, path_type) for x in val)
+        if tag == "\0key":
+            return decode(val, root, path_type)
+    if isinstance(v, list):
+        return [decode(x, root, path_type) for x in v]
+    if isinstance(v, tuple):
+        return tuple(decode(x, root, path_type) for x in v)
+    if isinstance(v, dict):
+        return {decode(k, root, path_type) if isinstance(k, tuple) else k: decode(x, root, path_type) for k, x in v.items()}
+    return v
+
+
 def plain_attrs(store):
     """Data attributes of a store instance (everything that is not a lock/condition/logger).  Values that can be
-    pickled are carried by value; anything else (a hash object, a buffer, a helper object) is represented by
-    ("opaque", fingerprint) - a state that drifted in such an attribute is re-created by replaying its history."""
+    pickled are carried by value (paths under the store directory re-based, see _encode); anything else (a hash object, a
+    buffer, a helper object) is represented by ("opaque", fingerprint) - a state that drifted in such an attribute is
+    re-created by replaying its history."""
     from . import gstate
+    root = ""
+    try:
+        root = os.fspath(getattr(store, "root", "")) or ""
+    except TypeError:
+        root = ""
     out = {}
     for k, v in vars(store).items():
-        if isinstance(v, (str, int, float, bool, type(None), list, dict, set, tuple)):
+        if isinstance(v, (str, int, float, bool, type(None), list, dict, set, tuple)) or isinstance(v, os.PathLike):
             try:
-                out[k] = pickle.loads(pickle.dumps(v))
+                out[k] = pickle.loads(pickle.dumps(_encode(v, root)))
             except Exception:  # noqa: BLE001
                 out[k] = ("opaque", gstate.fingerprint(v))
-        elif isinstance(v, os.PathLike):
-            out[k] = ("path", os.fspath(v))
         elif (type(v).__module__ or "").split(".")[0] in _SKIP_MODULES or callable(v):
             continue
         else:
